@@ -22,10 +22,14 @@ def labelLinesOf (numbered : Bool) : Nat → List Word → List Line
   | _, [] => []
   | i, c :: cs => labelLineOf numbered i c :: labelLinesOf numbered (i + 1) cs
 
+/-- the layout of one written block. The column labels are numbered from `Gen.C02.labelStart` — whatever the
+source says today: the number is part of a trailing `#n` comment the reader skips, so nothing downstream (the round
+trip `readStar_printStar`, hence `Lemmas/C02_Export.lean` and its users) depends on the VALUE of `labelStart`; that it
+is the documented 1 is the obligation `Props/C02.writer_literals_documented` only. -/
 def layoutOf (nc : Bool) (pre : List Line) (b : Block) : BlockLayout :=
   { pre := pre, name := b.name, nameLine := ⟨[], [(b.name, [])], []⟩, mid := [eLine],
     loopLine := ⟨[], [(['l', 'o', 'o', 'p', '_'], [])], []⟩, cols := b.cols,
-    labels := labelLinesOf (nc && !isStopgap b.name) 1 b.cols,
+    labels := labelLinesOf (nc && !isStopgap b.name) Gen.C02.labelStart b.cols,
     post := if isStopgap b.name then [eLine] else [],
     rows := b.rows.map rowLineOf }
 
@@ -96,7 +100,7 @@ theorem termLines_cons (x : List Char) (xs : List (List Char)) : termLines (x ::
 theorem printBlock_eq (nc : Bool) (b : Block) :
     printBlock nc b = '\n' :: (termLines ((coreLines nc b).map Line.text) ++ ['\n']) := by
   simp only [printBlock, coreLines, BlockLayout.lines, layoutOf]
-  rw [show Gen.C02.labelStart = 1 from rfl, ← labels_text, ← rows_text]
+  rw [← labels_text, ← rows_text]
   cases isStopgap b.name <;>
     simp [termLines_cons, termLines_append, Line.text, render, eLine, piece, Gen.C02.specLine, Gen.C02.loopLine,
       Gen.C02.stopgapExtra, Gen.C02.blockEnd] <;> rfl
